@@ -10,7 +10,10 @@ d = '/verif/seeded/%s_%s' % (prop, X)
 os.makedirs(d, exist_ok=True)
 shutil.copy(os.path.join(seed, X + '.patch'), os.path.join(d, 'patch.diff'))
 for f in glob.glob(os.path.join(seed, X + '_demo*')) + glob.glob(os.path.join(seed, X + '_run.sh')) + glob.glob(os.path.join(seed, 'common*.py')):
-    shutil.copy(f, d)
+    if os.path.isdir(f):
+        shutil.copytree(f, os.path.join(d, os.path.basename(f)), dirs_exist_ok=True)
+    else:
+        shutil.copy(f, d)
 out = dict(property=prop, files=meta.get('files'), summary=meta.get('summary'), needs=meta.get('needs'), why_tests_pass=meta.get('why_tests_pass'),
            confirmed=dict(demo_clean_exit=res.get('demo_clean_exit'), demo_patched_exit=res.get('demo_patched_exit'), applies=res.get('applies'),
                           how='tools/seedtest.py: demo run in a scratch worktree of /repo without and with the patch; then patch applied to /repo, quick checks run, patch reverted'),
